@@ -69,22 +69,16 @@ pub fn write_metric_line<T, T2>(
     T: std::fmt::Display,
     T2: std::fmt::Display,
 {
+    // The unit is part of the metric family's name, so it goes before any type-specific suffix:
+    // `<name>_<unit>_<suffix>`, i.e. `request_duration_seconds_bucket`.
     buffer.push_str(name);
+    if let Some(unit_suffix) = unit_suffix(unit) {
+        buffer.push('_');
+        buffer.push_str(unit_suffix);
+    }
     if let Some(suffix) = suffix {
         buffer.push('_');
         buffer.push_str(suffix);
-    }
-
-    match unit {
-        Some(Unit::Count) | None => {}
-        Some(Unit::Percent) => {
-            buffer.push('_');
-            buffer.push_str("ratio");
-        }
-        Some(unit) => {
-            buffer.push('_');
-            buffer.push_str(unit.as_str());
-        }
     }
 
     if !labels.is_empty() || additional_label.is_some() {
@@ -116,6 +110,15 @@ pub fn write_metric_line<T, T2>(
     buffer.push(' ');
     buffer.push_str(value.to_string().as_str());
     buffer.push('\n');
+}
+
+/// Gets the suffix that the given unit adds to a metric name, if any.
+pub fn unit_suffix(unit: Option<Unit>) -> Option<&'static str> {
+    match unit {
+        Some(Unit::Count) | None => None,
+        Some(Unit::Percent) => Some("ratio"),
+        Some(unit) => Some(unit.as_str()),
+    }
 }
 
 /// Sanitizes a metric name to be valid under the Prometheus [data model].
